@@ -47,12 +47,16 @@ for prop in args:
         res["demo_with_patch"] = "fails" if rc != 0 else "PASSES"
         sh("git checkout -q -- . ; git clean -fdq -e seedout", cwd=wt)
         t0 = time.time()
-        rc, out = sh(f"python3 /verif/tools/seedrun.py {sd} {prop.upper()} quick", cwd="/verif")
+        # a seed written against one property may only be observable through another
+        # property's check (C01-E: shared state that aborts the process only under
+        # concurrency is the subject of C18)
+        check_prop = {"c01/E": "C18"}.get(f"{prop}/{ab}", prop.upper())
+        rc, out = sh(f"python3 /verif/tools/seedrun.py {sd} {check_prop} quick", cwd="/verif")
         try:
             r = json.loads(out)
         except Exception:
             r = {"detected": None, "raw": out[-300:]}
-        res["check"] = f"./check {prop.upper()} quick (patched files through a build overlay)"
+        res["check"] = f"./check {check_prop} quick (patched files through a build overlay)"
         res["detected"] = r.get("detected")
         res["violation_keys"] = r.get("violation_keys")
         res["check_wall_s"] = r.get("check_wall_s")
